@@ -136,34 +136,44 @@ pub fn xing_braid_closure(s: &mut Src) -> R {
     let mut pos: Vec<usize> = (0..n).collect();
     let mut touched = vec![false; n];
     let mut under = vec![false; n];
+    let mut over_strand: Vec<usize> = vec![];
     for &g in &word {
         let i = (g.unsigned_abs() - 1) as usize;
         // positive letter: the strand coming from the top left is the under strand; negative: the one from the top right
         under[if g > 0 { pos[i] } else { pos[i + 1] }] = true;
+        over_strand.push(if g > 0 { pos[i + 1] } else { pos[i] });
         pos.swap(i, i + 1); touched[i] = true; touched[i + 1] = true;
     }
     pre!(touched.iter().all(|&t| t));
-    // perm: top position -> bottom position of the same strand (closing up identifies them)
+    // perm: top position -> bottom position of the same strand (closing up identifies them); comp[s] = component of strand s
     let mut perm = vec![0usize; n];
     for p in 0..n { perm[pos[p]] = p; }
-    // the diagram's orientation is read off the under strands (PD convention); a component that never passes under has none: excluded
-    {
-        let mut seen = vec![false; n];
-        for i in 0..n { if !seen[i] { let mut any = false; let mut j = i; while !seen[j] { seen[j] = true; any |= under[j]; j = perm[j]; } pre!(any); } }
-    }
+    let mut comp = vec![usize::MAX; n]; let mut cycles = 0;
+    for i in 0..n { if comp[i] == usize::MAX { let mut j = i; while comp[j] == usize::MAX { comp[j] = cycles; j = perm[j]; } cycles += 1; } }
+    // the diagram's orientation is read off the under strands (PD convention); a component that never passes under has none, the library may
+    // orient it either way -- but one way for the whole component
+    let mut comp_under = vec![false; cycles];
+    for s0 in 0..n { if under[s0] { comp_under[comp[s0]] = true; } }
     reach!();
     let b = Braid::new(n, word.iter().map(|&g| Generator::from(g)).collect());
     let l = b.closure();
     ob!(l.crossing_num() == word.len(), "Braid::closure::one-crossing-per-letter");
     let signs = l.crossing_signs();
     ob!(signs.len() == word.len(), "Link::crossing_signs::one-per-crossing");
+    let mut flip: Vec<Option<bool>> = vec![None; cycles];
+    let mut expect_writhe_known = true; let mut w = 0i32;
     for (k, &g) in word.iter().enumerate() {
-        let want = if g > 0 { Sign::Pos } else { Sign::Neg };
-        ob!(signs[k] == want, "Braid::closure/Link::crossing_signs::sign-of-kth-crossing-is-sign-of-kth-letter");
+        let same = (signs[k] == Sign::Pos) == (g > 0);
+        let c = comp[over_strand[k]];
+        if comp_under[c] {
+            ob!(same, "Braid::closure/Link::crossing_signs::sign-of-kth-crossing-is-sign-of-kth-letter");
+        } else {
+            match flip[c] { None => { flip[c] = Some(!same); } Some(f) => { ob!(f == !same, "Link::crossing_signs::an-over-only-component-is-oriented-one-way"); } }
+            expect_writhe_known = false;
+        }
+        w += g.signum();
     }
-    ob!(l.writhe() == word.iter().map(|&g| g.signum()).sum::<i32>(), "Link::writhe==exponent-sum");
-    let mut seen = vec![false; n]; let mut cycles = 0;
-    for i in 0..n { if !seen[i] { cycles += 1; let mut j = i; while !seen[j] { seen[j] = true; j = perm[j]; } } }
+    if expect_writhe_known { ob!(l.writhe() == w, "Link::writhe==exponent-sum"); }
     let comps = l.components();
     ob!(comps.len() == cycles, "Link::components==cycles-of-the-braid-permutation");
     ob!(comps.iter().all(|c| c.is_circle()), "Link::components-are-closed");
